@@ -182,7 +182,7 @@ func runC03(c *Ctx) {
 		"the DHCP option order list puts the subnet mask before the router. Not decided: DHCP option maps and DNS names (loops over caller data), Parse classification of composed frames (C02 decides classification per constant), NDP option bodies."
 	r.Assume("MAC parameters have at least 6 bytes, IPv4 address parameters 4 bytes", "copy() copies min(len(dst), len(src)); shorter arguments leave stale bytes")
 	r.Rule("roundtrip", "getter(encoder(args)) == the supplied argument / documented constant", 70)
-	r.Rule("capacity", "AppendPayload/SetPayload never write past capacity; too-big payloads get ErrPayloadTooBig", 6)
+	r.Rule("capacity", "AppendPayload/SetPayload never write past capacity; too-big payloads get ErrPayloadTooBig", 7)
 	r.Rule("option-order", "subnet mask is encoded before the router option", 1)
 
 	addrT := addrStructOf(c.P)
@@ -466,6 +466,37 @@ func runC03(c *Ctx) {
 		}
 		r.Add(core.Obligation{Rule: "capacity", Key: "capacity " + name + " in bounds", Func: core.FuncName(fn), Pos: c.P.Pos(fn.Pos()), Status: st,
 			Basis: fmt.Sprintf("%d bounds obligations proved for arbitrary receiver and payload", n), Detail: strings.Join(fails, "; ")})
+	}
+	// Ether.AppendPayload: the same in-bounds obligation for the link layer (receiver: the 14-byte header EncodeEther
+	// returns, in a buffer of at least the minimum frame size and at most EthMaxSize; payload: any slice, any capacity)
+	if fn := c.A.Method("", "Ether", "AppendPayload"); fn != nil {
+		var fails []string
+		n := 0
+		in := absint.New(c.P, absint.Config{MaxStates: 64, MaxOutcomes: 16}, func(f absint.Finding) {
+			n++
+			if !f.OK {
+				fails = append(fails, fmt.Sprintf("%s %s: %s", f.Kind, absint.SiteString(f.Site), f.Detail))
+			}
+		})
+		recv := in.InputSlice("P", false)
+		recv.MaybeNil = false
+		pay := in.InputSlice("B", false)
+		h := absint.NewHeap()
+		h.AddFact(recv.Len.AddC(-14))
+		h.AddFact(absint.Const(14).Sub(recv.Len))
+		h.AddFact(absint.Const(1514).Sub(recv.Cap))
+		h.AddFact(recv.Cap.AddC(-60))
+		h.SetKnown(recv, 12, absint.Const(0x08)) // an untagged EtherType, as EncodeEther writes it
+		h.SetKnown(recv, 13, absint.Const(0x00))
+		in.Exec(fn, []absint.Value{recv, pay}, nil, h)
+		st := core.Proved
+		if len(fails) > 0 || n == 0 {
+			st = core.Violated
+		}
+		r.Add(core.Obligation{Rule: "capacity", Key: "capacity Ether.AppendPayload in bounds", Func: core.FuncName(fn), Pos: c.P.Pos(fn.Pos()), Status: st,
+			Basis: fmt.Sprintf("%d bounds obligations proved for an encoded header and an arbitrary payload slice", n), Detail: strings.Join(fails, "; ")})
+	} else {
+		r.Add(core.Obligation{Rule: "capacity", Key: "capacity Ether.AppendPayload in bounds", Status: core.Violated, Detail: "function not found"})
 	}
 
 	// ---- DHCP option order ----
